@@ -102,10 +102,32 @@ func (m *model) next() expect {
 	pushOpen := m.st.BlockByPush
 	e := m.next1()
 	if pushOpen {
-		// RFC 7540 §6.6/§6.10: a PUSH_PROMISE without END_HEADERS opens a header block.
-		e.class, e.stop = "push-promise-header-block", true
+		// RFC 7540 §6.6/§6.10: a PUSH_PROMISE without END_HEADERS opens a header block. Input class of
+		// D18 (fixed in /repo by f13b66e): a mismatch here is reported under this class. x/net v0.19.0
+		// still does not track such a block (rejects its CONTINUATION, accepts other frames inside it).
+		e.class = "push-promise-header-block"
+		if e.diffWL == "" {
+			e.diffWL = wlPushPromise
+		}
 	}
 	return e
+}
+
+// differential whitelist classes of the two defects fixed in the fork only (D18, D19)
+const (
+	wlPushPromise  = "open-push-promise-header-block"
+	wlShortPayload = "payload-too-short-for-mandatory-field"
+)
+
+// shortPayloadClass: the frame is complete but too short for a mandatory field (D19, fixed in /repo by
+// be25c02: ConnectionError(FRAME_SIZE_ERROR)); x/net v0.19.0 answers io.ErrUnexpectedEOF.
+func shortPayloadClass(ds []ref.Defect) string {
+	for _, d := range ds {
+		if d.Name == "payload-too-short-for-mandatory-field" {
+			return wlShortPayload
+		}
+	}
+	return ""
 }
 
 func (m *model) next1() expect {
@@ -122,6 +144,7 @@ func (m *model) next1() expect {
 	e := expect{errSID: r.Frame.StreamID}
 	if r.Verdict == ref.FrameReject {
 		e.defects, e.refKind = r.Defects, "reject"
+		e.diffWL = shortPayloadClass(r.Defects)
 		return e
 	}
 	if m.c.Meta && r.Frame.Type == ref.FHeaders {
@@ -196,7 +219,9 @@ func (m *model) assemble(r ref.FrameResult) expect {
 			ds, open := early()
 			e.defects = append(r2.Defects, ds...)
 			e.any = open
-			e.diffWL = m.wlInvalidThenContinuation(frags, 1)
+			if e.diffWL = m.wlInvalidThenContinuation(frags, 1); e.diffWL == "" {
+				e.diffWL = shortPayloadClass(r2.Defects)
+			}
 			e.stop, e.refKind = true, "reject"
 			// a stream error inside the block must name the offending frame's stream; one caused by
 			// the header list names the HEADERS stream: accept either
